@@ -1776,6 +1776,17 @@ func ruleSetPublishesAll(c *Ctx) {
 	}
 	n := 0
 	bad := []string{}
+	for _, g := range fns {
+		for _, b := range g.Blocks {
+			for _, in := range b.Instrs {
+				if r, ok := in.(*ssa.Range); ok {
+					if _, isMap := r.X.Type().Underlying().(*types.Map); isMap {
+						bad = append(bad, fmt.Sprintf("%s: %s builds the published list by walking a map: locations of one priority class come out in a random order that changes with every reload, and the first match among overlapping ones with it", c.P.pos(r.Pos()), funcName(g)))
+					}
+				}
+			}
+		}
+	}
 	for wb, in := range writes {
 		if !inLoop(wb) {
 			continue
@@ -2497,4 +2508,248 @@ func phiOfZeroOrParsed(phi *ssa.Phi) bool {
 		}
 	}
 	return true
+}
+
+// ---------------------------------------------------------------- round 18
+
+// ruleResetDoesNotWait: a registry reset waits for nothing (closing a removed
+// server takes the graceful delay; the update behind it must not stall).
+func ruleResetDoesNotWait(c *Ctx) {
+	regs := []struct{ pkg, typ, method string }{
+		{"cache", "dispatchers", "Reset"}, {"upstream", "upstreamServers", "Reset"}, {"server", "servers", "Reset"},
+		{"compress", "compressSrvs", "Reset"}, {"location", "Locations", "Set"},
+	}
+	n := 0
+	bad := []string{}
+	for _, r := range regs {
+		fn := c.P.Method(r.pkg, r.typ, r.method)
+		if fn == nil {
+			continue
+		}
+		n++
+		for g := range staticScope(fn, r.pkg, 2) {
+			if g.Parent() != nil {
+				// a literal started with `go` may wait; one run in place may not
+				started := false
+				for _, in := range *referrersOfFunc(g) {
+					if _, isGo := in.(*ssa.Go); isGo {
+						started = true
+					}
+				}
+				if started {
+					continue
+				}
+			}
+			for _, b := range g.Blocks {
+				for _, in := range b.Instrs {
+					switch x := in.(type) {
+					case *ssa.Call:
+						if sc := x.Call.StaticCallee(); sc != nil {
+							switch sc.String() {
+							case "(*sync.WaitGroup).Wait", "time.Sleep", "(*golang.org/x/sync/errgroup.Group).Wait":
+								bad = append(bad, fmt.Sprintf("%s: %s waits (%s) in the middle of a reset: closing a removed server takes the graceful delay, and until then the surviving servers are not updated and new ones not registered although the locations, upstreams and caches they name have already been replaced", c.P.pos(x.Pos()), funcName(g), sc.Name()))
+							}
+						}
+					case *ssa.UnOp:
+						if x.Op.String() == "<-" {
+							bad = append(bad, fmt.Sprintf("%s: %s blocks on a channel receive in the middle of a reset", c.P.pos(x.Pos()), funcName(g)))
+						}
+					}
+				}
+			}
+		}
+	}
+	if n < 4 {
+		c.undecided("reset-does-not-wait", "registries", "-", fmt.Sprintf("only %d resets found", n))
+		return
+	}
+	sort.Strings(bad)
+	c.check(len(bad) == 0, "reset-does-not-wait", "registries", "server/server.go", fmt.Sprintf("%d registry resets: none waits on a WaitGroup, a timer or a channel outside a goroutine it starts", n), strings.Join(uniq(bad), " || "), n)
+}
+
+// ruleDecodersNoPostFilter: a stream decoder reports only what its library
+// reported: no error of its own is added behind the library call.
+func ruleDecodersNoPostFilter(c *Ctx) {
+	n := 0
+	bad := []string{}
+	var fromLibrary func(v ssa.Value, d int) bool
+	fromLibrary = func(v ssa.Value, d int) bool {
+		if d > 4 {
+			return false
+		}
+		switch x := v.(type) {
+		case *ssa.Const:
+			return x.Value == nil
+		case *ssa.Extract:
+			if call, ok := x.Tuple.(*ssa.Call); ok {
+				sc := call.Call.StaticCallee()
+				return call.Call.IsInvoke() || sc == nil || !isPike(sc) || (inPkg(sc, "compress") && strings.HasPrefix(sc.Name(), "do"))
+			}
+		case *ssa.Call:
+			sc := x.Call.StaticCallee()
+			if x.Call.IsInvoke() {
+				return true
+			}
+			if sc != nil && (sc.String() == "errors.New" || sc.String() == "fmt.Errorf") {
+				return false
+			}
+			return sc == nil || !isPike(sc) || (inPkg(sc, "compress") && strings.HasPrefix(sc.Name(), "do"))
+		case *ssa.Phi:
+			for _, e := range x.Edges {
+				if !fromLibrary(e, d+1) {
+					return false
+				}
+			}
+			return true
+		case *ssa.UnOp:
+			if al, ok := x.X.(*ssa.Alloc); ok {
+				// a named result: every store into it
+				for _, r := range *al.Referrers() {
+					if st, ok := r.(*ssa.Store); ok && st.Addr == ssa.Value(al) {
+						if !fromLibrary(st.Val, d+1) {
+							return false
+						}
+					}
+				}
+				return true
+			}
+			return false
+		}
+		return false
+	}
+	for _, f := range c.P.allFuncs {
+		if !inPkg(f, "compress") || f.Parent() != nil {
+			continue
+		}
+		nm := f.Name()
+		if !(strings.HasPrefix(nm, "do") && (strings.HasSuffix(nm, "Decode") || nm == "doGunzip")) {
+			continue
+		}
+		n++
+		for _, b := range f.Blocks {
+			ret, ok := b.Instrs[len(b.Instrs)-1].(*ssa.Return)
+			if !ok || len(ret.Results) == 0 {
+				continue
+			}
+			ev := ret.Results[len(ret.Results)-1]
+			if !fromLibrary(ev, 0) {
+				bad = append(bad, fmt.Sprintf("%s: %s returns an error of its own (%s) next to what the codec library reports: a stream the library decodes (several concatenated frames, say, whose first header states its own size) is rejected", c.P.pos(ret.Pos()), funcName(f), ev.String()))
+			}
+		}
+	}
+	if n < 4 {
+		c.undecided("decoders-no-post-filter", "compress", "-", fmt.Sprintf("only %d stream decoders found", n))
+		return
+	}
+	sort.Strings(bad)
+	c.check(len(bad) == 0, "decoders-no-post-filter", "compress", "compress/compress.go", fmt.Sprintf("%d stream decoders: every error they return is the codec library's", n), strings.Join(uniq(bad), " || "), n)
+}
+
+// ruleValidateEveryServer: no iteration of Validate's loop over the servers
+// comes round without having run a reference check.
+func ruleValidateEveryServer(c *Ctx) {
+	fn := c.P.Method("config", "PikeConfig", "Validate")
+	if fn == nil {
+		c.undecided("validate-every-server", "PikeConfig.Validate", "-", "not found")
+		return
+	}
+	name, pos := funcName(fn), c.P.pos(fn.Pos())
+	srv := c.P.StructField("config", "PikeConfig", "Servers")
+	n := 0
+	bad := []string{}
+	scopeFns := []*ssa.Function{}
+	for g := range staticScope(fn, "config", 2) {
+		if g.Parent() == nil {
+			scopeFns = append(scopeFns, g)
+		}
+	}
+	sort.Slice(scopeFns, func(i, j int) bool { return scopeFns[i].Pos() < scopeFns[j].Pos() })
+	for _, g := range scopeFns {
+		isHeader := func(b *ssa.BasicBlock) bool {
+			for _, p := range b.Preds {
+				if b.Dominates(p) {
+					return true
+				}
+			}
+			return false
+		}
+		for _, h := range g.Blocks {
+			if !isHeader(h) {
+				continue
+			}
+			// the loop over c.Servers: its header (or the block in front) reads the Servers field
+			overServers := false
+			for _, b := range g.Blocks {
+				if !(b == h || (b.Dominates(h) && len(b.Succs) == 1 && b.Succs[0] == h)) {
+					continue
+				}
+				for _, in := range b.Instrs {
+					if u, ok := in.(*ssa.UnOp); ok {
+						if fa, ok := u.X.(*ssa.FieldAddr); ok && fieldOf(fa.X.Type(), fa.Field) == srv {
+							overServers = true
+						}
+					}
+					if fa, ok := in.(*ssa.FieldAddr); ok && fieldOf(fa.X.Type(), fa.Field) == srv {
+						overServers = true
+					}
+				}
+			}
+			if !overServers {
+				continue
+			}
+			n++
+			inLoopOf := func(b *ssa.BasicBlock) bool {
+				return h.Dominates(b) && reaches(b, h, map[*ssa.BasicBlock]bool{})
+			}
+			// check sites: headers of loops nested in this one, and calls of config helpers
+			site := map[*ssa.BasicBlock]bool{}
+			for _, b := range g.Blocks {
+				if b == h || !inLoopOf(b) {
+					continue
+				}
+				if isHeader(b) {
+					site[b] = true
+				}
+				for _, in := range b.Instrs {
+					if ci, ok := in.(ssa.CallInstruction); ok {
+						if sc := ci.Common().StaticCallee(); sc != nil && inPkg(sc, "config") {
+							site[b] = true
+						}
+					}
+				}
+			}
+			if len(site) == 0 {
+				continue
+			}
+			skipped := false
+			seen := map[*ssa.BasicBlock]bool{}
+			var dfs func(b *ssa.BasicBlock)
+			dfs = func(b *ssa.BasicBlock) {
+				if skipped || seen[b] || site[b] || !inLoopOf(b) {
+					return
+				}
+				seen[b] = true
+				for _, s := range b.Succs {
+					if s == h {
+						skipped = true
+						return
+					}
+					dfs(s)
+				}
+			}
+			for _, s := range h.Succs {
+				if s != h && inLoopOf(s) {
+					dfs(s)
+				}
+			}
+			if skipped {
+				bad = append(bad, fmt.Sprintf("%s: an iteration of the loop over the servers can come round without running any reference check: a server entry that is skipped (a second entry for an address already seen, say) is accepted with dangling references, and it is the entry applied last that counts", c.P.pos(h.Instrs[0].Pos())))
+			}
+		}
+	}
+	if n == 0 {
+		c.undecided("validate-every-server", name, pos, "the loop over the servers was not recognised")
+		return
+	}
+	c.check(len(bad) == 0, "validate-every-server", name, pos, fmt.Sprintf("%d loop over the servers: every iteration runs its reference checks", n), strings.Join(uniq(bad), " || "), n)
 }
